@@ -691,6 +691,57 @@ def _o_estimate(w):
 
 
 
+def _o_funding_final(w):
+    """end to end on the real code: build_psbt over inputs the library's updater filled, then the library's signer,
+    finalizer and extractor: value conserved, the fee at least fee_from_vsize(FINAL vsize, rate) -- also with every
+    DER signature at its 72-byte worst case --, change never dust; the remainder is aimed at the change / no-change
+    boundary (what the fee leaves = dust threshold + delta) by a first build that learns the fee."""
+    from btclib.psbt.psbt import extract_tx, finalize
+    from btclib.psbt.psbt_out import PsbtOut
+    from btclib.psbt_signer import request_signatures
+    S = _signer()
+    rate, dr = _rate(w["rate"]), _rate(3000)
+    change_script = {"wpkh": PAY.script, "tr": ScriptPubKey.p2tr(KEY2).script, "pkh": ScriptPubKey.p2pkh(KEY2).script,
+                     "sh": ScriptPubKey.p2sh(PAY.script).script}[w["change"]]
+    outs = [TxOut(v, PAY) for v in w["outs"]]
+
+    def inputs(first_value):
+        ins = []
+        for i, (t, k) in enumerate(w["inputs"]):
+            d = _descriptor(TEMPLATES[t])
+            prev_tx = Tx(vin=[TxIn(OutPoint(bytes([i + 1]) * 32, i))],
+                         vout=[TxOut(first_value if i == 0 else 10_000, d.script_pub_key(k))])
+            pin = PsbtIn(non_witness_utxo=prev_tx, previous_tx_id=prev_tx.id, output_index=0)
+            tmp = Psbt(2, [pin], [PsbtOut(amount=1, script_pub_key=PAY.script)], 0, {}, fallback_lock_time=0)
+            ins.append(d.update_psbt_input(tmp, 0, k).inputs[0])
+        return ins
+    probe = build_psbt(inputs(10_000_000), outs, rate, change_script)
+    if probe.change_index is None:
+        return False, "the probe build created no change"
+    dust = dust_threshold(change_script, dr)
+    rest = 10_000 * (len(w["inputs"]) - 1)
+    first = sum(w["outs"]) + probe.fee + dust + w["delta"] - rest
+    if first < 1:
+        return True, "aimed value not positive"
+    try:
+        built = build_psbt(inputs(first), outs, rate, change_script)
+    except Exception as e:  # noqa: BLE001
+        ok = common.err_class(e) == "value" and w["delta"] < 0
+        return ok, f"build_psbt raised {type(e).__name__} at delta={w['delta']}"
+    tx = extract_tx(finalize(request_signatures(S["signer"], built.psbt)))
+    worst = _with_worst_case_sigs(tx)
+    total_in = first + rest
+    vout = [o.value for o in tx.vout]
+    ok = total_in == sum(vout) + built.fee
+    ok = ok and built.fee >= fee_from_vsize(tx.vsize, rate) and built.fee >= fee_from_vsize(worst.vsize, rate)
+    if w["delta"] >= 0:
+        ok = ok and built.change_index == len(outs) and vout[-1] == dust + w["delta"] and built.fee == probe.fee
+    else:
+        ok = ok and built.change_index is None and len(vout) == len(outs) and built.fee == probe.fee + dust + w["delta"]
+    return ok, (f"{[TEMPLATES[t] for t, _ in w['inputs']]} rate={w['rate']} change={w['change']} delta={w['delta']}: fee={built.fee} "
+                f"(with change {probe.fee}), dust={dust}, vout={vout}, final vsize={tx.vsize}, worst-case {worst.vsize}")
+
+
 NUMS = "50929b74c1a04954b78b4b6035e97a5e078a5a0f28ec96d547bfee9ace803ac0"
 TAP_TEMPLATES = ["tr(@4,pk(@1))", f"tr({NUMS},pk(@1))", f"tr({NUMS},multi_a(2,@1,@2))", f"tr({NUMS},{{pk(@1),pk(@2)}})",
                  f"tr({NUMS},{{pk(@1),multi_a(1,@2,@3)}})", "tr(@4,multi_a(1,@1))", f"tr({NUMS},multi_a(1,@2))",
@@ -1082,6 +1133,7 @@ ORACLES = {
     "feerate.context": _o_feerate_context,
     "feerate.bounded_time": _o_bounded_time,
     "funding.invariants": _o_funding,
+    "funding.final": _o_funding_final,
     "fee.ceiling": _o_fee_ceiling,
     "fee.monotone": _o_fee_monotone,
     "fee.package": _o_package,
@@ -1318,7 +1370,7 @@ def _run_amount(ctx):
         for cx in (edge_ctx, dict(edge_ctx, Emax=999999, Emin=-5, traps=["Subnormal", "Underflow", "Clamped"]),
                    dict(edge_ctx, Emax=0, Emin=0, clamp=1, capitals=0, rounding="ROUND_UP")):
             ctx.check("amount.anycontext", {"fn": fn, "x": x, "decimal": dec, "ctx": cx}, key="amount.context-emax")
-    for _ in range(ctx.n(600, 12000)):
+    for _ in range(ctx.n(600, 8000)):
         fn, x, dec = rng.choice(_CTX_CASES)
         if fn == "btc_from_sats" and rng.random() < 0.5:
             x = rng.randrange(0, MAX_SATS + 1)
@@ -1404,6 +1456,14 @@ def _psize_line(rng, psbt_in, spk):
         redeem, ws = ws, redeem
     elif r < 0.48:
         spk = G.rand_script(rng)[:600]
+        # the driver judges key validity by SHAPE (it has no curve arithmetic): a random p2pk-shaped script whose
+        # "key" has a valid prefix byte but is not a curve point would be a harness artefact, so its prefix is spoiled
+        if len(spk) in (35, 67) and spk[0] == len(spk) - 2 and spk[-1] == 0xAC and spk[1] in (2, 3, 4):
+            from btclib.curves.sec_point import point_from_octets
+            try:
+                point_from_octets(spk[1:-1])
+            except Exception:  # noqa: BLE001
+                spk = spk[:1] + b"\x05" + spk[2:]
     if rng.random() < 0.3:
         sizer = rng.choice(["_", "72", "65,34,33", "1,2,3,300", "0"])
     if rng.random() < 0.15:
@@ -1537,6 +1597,12 @@ def _run_estimate(ctx):
         ins = [[rng.randrange(len(TEMPLATES)), rng.randrange(200), rng.choice([0, 0, 1])] for _ in range(n)]
         ctx.check("psbt.estimate", {"inputs": ins, "n_out": rng.choice([1, 2, 3])})
     # every shape × {compressed, uncompressed} alone, then mixes
+    # funded, signed, finalized: the fee on the FINAL vsize, at the change / no-change boundary
+    for _ in range(ctx.n(40, 300)):
+        ins = [[rng.randrange(len(TEMPLATES)), rng.randrange(100)] for _ in range(rng.choice([1, 1, 2, 3]))]
+        ctx.check("funding.final", {"inputs": ins, "outs": [rng.choice([546, 1000, 60_000]) for _ in range(rng.choice([1, 2]))],
+                                    "rate": rng.choice([1, 999, 1000, 1001, 2500, 10_000, 123_456]),
+                                    "change": rng.choice(["wpkh", "tr", "pkh", "sh"]), "delta": rng.choice([-1, 0, 0, 1, -1, 5000])})
     for t in range(len(TAP_TEMPLATES)):
         for sht in (0, 1) if t < 3 or ctx.tier != "quick" else (rng.choice([0, 1, 0x81]),):
             ctx.check("psbt.estimate_tapleaf", {"t": t, "k": rng.randrange(40), "sht": sht, "n_out": rng.choice([1, 2])})
